@@ -22,11 +22,17 @@ requested ones (and the same latched fields).
 
 Endpoint number: the interface field is 7 bits wide, the packet field 4 bits: the packet carries the low 4 bits.
 
+Caller side: USB3ProtocolLayer (handshake interface and address reach the generator; its packets reach the link layer's header
+sink through the header arbiter) and USBSuperSpeedDevice (`device_wiring`: the generator's address input is the device's address
+register - 0 after power-on, cleared on link reset, new_address of the endpoint multiplexer after address_changed - and is the same
+register the link layer puts into data headers; likewise current_configuration).
+
 Finding on the unchanged tree (see proposed_fixes/C45_erdy_request_sends_erdy.diff): DISPATCH_REQUESTS sends a
 `send_erdy` request to the SEND_NRDY state; the packet produced has SubType NRDY.
 """
 import z3
 from hwv.contract import B, bits, zx, bvc
+from amaranth import Elaboratable, Module
 from luna.gateware.usb.usb3.protocol.transaction import TransactionPacketGenerator
 
 LEVEL = "proof"
@@ -213,7 +219,92 @@ def header_path_wiring(c):
     c.cosim_cycles = 16
 
 
+class OpenEndpoint(Elaboratable):
+    """Stand-in for an arbitrary endpoint handed to USBSuperSpeedDevice.add_endpoint(): a real SuperSpeedEndpointInterface and an
+    empty elaborate().  Every interface signal is made a port by the caller, so whatever the device does not drive (the strobes,
+    parameters, new_address / new_config an endpoint produces) is a free input: the obligations hold for every endpoint behaviour."""
+    def __init__(self):
+        from luna.gateware.usb.usb3.protocol.endpoint import SuperSpeedEndpointInterface
+        self.interface = SuperSpeedEndpointInterface()
+
+    def elaborate(self, platform):
+        return Module()
+
+
+def device_wiring(c):
+    """USBSuperSpeedDevice.elaborate() with two open endpoints (c46.open_superspeed_device): the `address` input of the real
+    TransactionPacketGenerator inside the real USB3ProtocolLayer is the device's address register.
+
+    'The device's address register' is characterised by what the device does with it, on the interface of the real endpoint
+    multiplexer and the real link layer (not by the name of a local variable of elaborate()): it is 0 after power-on, is cleared
+    while the link layer reports a reset, takes the multiplexer's new_address in the cycle after address_changed, and holds
+    otherwise.  A signal obeying that law from reset IS that register, so the obligations are: generator.address obeys the law (init
+    + step), and the protocol layer's current_address, the link layer's current_address and the data packet transmitter's address are
+    generator.address.  Likewise current_configuration / new_config."""
+    from luna.gateware.usb.usb3.protocol.endpoint import SuperSpeedEndpointMultiplexer
+    from luna.gateware.usb.usb3.protocol.layer import USB3ProtocolLayer
+    from luna.gateware.usb.usb3.link.layer import USB3LinkLayer
+    from luna.gateware.usb.usb3.link.data import DataPacketTransmitter
+    from hwv.extract import BindingError
+    from .c46_ss_in_endpoint import open_superspeed_device, signals_of, same, exactly
+    eps = [OpenEndpoint(), OpenEndpoint()]
+    d, pipe, ts = open_superspeed_device(c, eps, {k: v for n, e in enumerate(eps) for k, v in signals_of(e.interface, f"ep{n}_").items()})
+    S = lambda a, b: same(ts, a, b)
+    mux, proto, link = ts.instance(SuperSpeedEndpointMultiplexer), ts.instance(USB3ProtocolLayer), ts.instance(USB3LinkLayer)
+    gen, dtx = ts.instance(TransactionPacketGenerator), ts.instance(DataPacketTransmitter)
+    sh = mux.shared
+
+    def value(sig):
+        """what the readers of `sig` see: its term; constant 0 if nothing drives or reads it in this design (an unconnected port)"""
+        try:
+            return ts.of(sig)
+        except BindingError:
+            return bvc(0, sig.shape().width)
+
+    in_reset = ts.of(link.in_reset) == 1
+    # (name, reader port, exact width demanded of reader and new_<what> - None: the port's own declared width, see note)
+    for what, exact, readers, strobe, new, ep_new in (
+            ("address", 7, [("generator_address", gen.address), ("protocol_current_address", proto.current_address),
+                            ("link_current_address", link.current_address), ("data_header_address", dtx.address)],
+             sh.address_changed, sh.new_address, "new_address"),
+            # note: USB3ProtocolLayer.current_configuration is declared Signal(7) while the device's register and new_config are 8 bits
+            # wide.  Nothing inside the protocol layer reads it and no property mentions it, so the clause is stated at the port's
+            # own width (it shows the low bits of the register); the narrower declaration is reported as an observation only.
+            ("configuration", None, [("protocol_current_configuration", proto.current_configuration)], sh.config_changed, sh.new_config,
+             "new_config")):
+        name, port = readers[0]
+        reg, new_v = value(port), value(new)
+        w = reg.size()
+        ok = (exact is None and new_v.size() >= w) or (reg.size() == exact == new_v.size())
+        c.lemma(f"{what}_ports_have_the_register_width", z3.BoolVal(ok),
+                clause=f"carrying the device address: no truncation between the multiplexer's new_{what}, the register and its readers")
+        if not ok:
+            continue
+        low = lambda v: z3.Extract(w - 1, 0, v) if v.size() > w else v
+        c.ensure(f"{name}_is_the_device_{what}_register",
+                 c.nx(reg) == z3.If(in_reset, bvc(0, w), z3.If(ts.of(strobe) == 1, low(new_v), reg)),
+                 clause=f"carrying the device address ... present when the request was made: {name.replace('_', '.', 1)} follows the device's "
+                        f"{what} register law - cleared while the link is in reset, else new_{what} of the endpoint multiplexer in the cycle after "
+                        f"{what}_changed, else unchanged")
+        c.lemma(f"{name}_is_zero_after_power_on", z3.substitute(reg, *ts.init_pairs()) == 0,
+                clause=f"the {what} register starts at 0 (the default address / unconfigured)")
+        for rname, sig in readers[1:]:
+            c.lemma(f"{rname}_is_the_same_register", S(sig, port),
+                    clause="data headers and transaction packets carry the same device address register")
+        # the endpoints' requests for a change reach the register: stated on the open endpoints' own interface signals
+        on = [ts.of(getattr(e.interface, f"{what if what == 'address' else 'config'}_changed")) == 1 for e in eps]
+        for k, e in enumerate(eps):
+            c.ensure(f"ep{k}_{ep_new}_is_adopted_when_it_alone_asks",
+                     z3.Implies(z3.And(exactly(on, k), z3.Not(in_reset)), c.nx(reg) == low(ts.of(getattr(e.interface, ep_new)))),
+                     clause=f"the device address ... present when the request was made: an endpoint's {ep_new} (SET_ADDRESS / SET_CONFIGURATION "
+                            f"handled by a control endpoint) is the register's value from the next cycle on")
+        c.ensure(f"{what}_register_holds_without_a_request", z3.Implies(z3.And(z3.Not(z3.Or(*on)), z3.Not(in_reset)), c.nx(reg) == reg))
+        c.cover(f"{what}_is_set_by_an_endpoint", z3.And(z3.Not(in_reset), ts.of(strobe) == 1, low(new_v) != 0, low(new_v) != reg), reach=False)
+    c.cosim_cycles = 4
+
+
 def contracts(tier):
     yield ("TransactionPacketGenerator", "", generator)
     yield ("USB3ProtocolLayer", "handshake_wiring", layer_wiring)
     yield ("USB3ProtocolLayer", "wiring_header_path", header_path_wiring)
+    yield ("USBSuperSpeedDevice", "wiring_device_address", device_wiring)
